@@ -27,7 +27,7 @@ WALL = {"quick": 900, "thorough": 7200}
 REQUIRED = {"trees_compared": 400, "conditional_includes": 400, "else_branches": 100, "inactive_includes": 150,
             "active_errors": 15, "inactive_errors": 60, "nested_includes": 200, "repeated_names": 100,
             "whitespace_variants": 400, "independence_checks": 100, "conditional_type_entries": 100, "max_depth": 3,
-            "after_moleculetype_cases": 20}
+            "after_moleculetype_cases": 20, "relative_path_readings": 400}
 TYPES = ["a", "b", "c"]
 MACROS = ["FOO", "BAR", "BAZ"]
 
@@ -411,6 +411,20 @@ def run_case(cid, rng, workdir):
         key = "conditional-include-after-moleculetype" if after else "differs-from-flattened:%s" % "+".join(diff)
         violation(res, key, "reading the tree differs from reading the flattened file in %s:%s" % (diff, detail), w)
         return res
+    # the same tree addressed by a bare / relative file name from other working directories
+    here = os.getcwd()
+    try:
+        for label, cwd, rel in (("bare-name-from-its-directory", tree_root, "t.top"),
+                                ("relative-path-from-parent", workdir, os.path.join("tree", "t.top"))):
+            os.chdir(cwd)
+            st_r, s_r, _e4 = read(rel)
+            bump(res, "relative_path_readings")
+            if st_r != "ok" or s_r != s_tree:
+                what = s_r if st_r != "ok" else [k for k in s_tree if s_tree[k] != s_r[k]]
+                violation(res, "include-path-not-relative-to-including-file:" + label,
+                          "reading the same tree as %r from %s gives %s" % (rel, "its own directory" if cwd == tree_root else "the parent directory", what), w)
+    finally:
+        os.chdir(here)
     # expected molecule list from the spec
     exp_list = [n for n, c in mols for _ in range(c)]
     if s_tree["mols"] != exp_list:
